@@ -467,6 +467,9 @@ class TermCanvas(Canvas):
 
         self.height = height
 
+        # lines may have been taken back from the scrollback buffer
+        self.scrolling_up = min(self.scrolling_up, len(self.scrollback_buffer))
+
         self.reset_scroll()
 
         x, y = self.constrain_coords(x, y)
@@ -1448,7 +1451,12 @@ class TermCanvas(Canvas):
             yield from self.term
         else:
             buf = [*self.scrollback_buffer, *self.term]
-            yield from buf[-(self.height + self.scrolling_up) : -self.scrolling_up]
+            for line in buf[-(self.height + self.scrolling_up) : -self.scrolling_up]:
+                # lines of the scrollback buffer have the width of the terminal at the time they were scrolled out
+                if (padding := self.width - len(line)) > 0:
+                    yield line + [self.empty_char()] * padding
+                else:
+                    yield line[: self.width]
 
     def content_delta(self, other: Canvas):
         if other is self:
